@@ -1,6 +1,7 @@
 (** Executable entry point of the C17 model for the correspondence check.
-    case (0 variant events) : single action — the variant (Arc / arena / local) is not modelled,
-                              all four run the same [dispatch] code;
+    case (0 variant events [restore]) : single action — the variant (Arc / arena / local / server)
+                              is not modelled, all run the same [dispatch] code; restore: see
+                              [restored];
     case (1 events)         : multi-action.
     events: (0 i) dispatch, (1 k) abort / cancel, (2 k r) complete, (3 k c) poll, (4) clear,
             (5 picks) run until idle, (6 k) drop the abort handle, (7 v) dispatch_sync. *)
@@ -58,11 +59,22 @@ Fixpoint mtrace (s : mstate) (evs : list sexp) : list sexp :=
       mobs s' :: mtrace s' r
   end.
 
+(** optional 4th element of a single-action case (server actions only): (p r) = the action is
+    created under a ServerActionError context; p = 1: for this server function's path, carrying
+    the encoded error r; p = 2: for this path, with an undecodable payload (the action then starts
+    with a Deserialization error, which the harness prints as -1000001); p = 0: for another path *)
+Definition restored (x : sexp) : option Z :=
+  match x with
+  | Lst [Num 1%Z; Num r] => Some r
+  | Lst [Num 2%Z; _] => Some (-1000001)%Z
+  | _ => None
+  end.
+
 (** opcode 2 = the single-action case on the code as it was before the fix (unbiased select):
     only used by the corpus witness, never compared with the implementation *)
 Definition run_C17 (c : sexp) : sexp :=
   match as_Z (nth_s 0 c) with
-  | 0%Z => Lst (trace true init (as_list (nth_s 2 c)))
+  | 0%Z => Lst (trace true (init_with (restored (nth_s 3 c))) (as_list (nth_s 2 c)))
   | 1%Z => Lst (mtrace minit (as_list (nth_s 1 c)))
   | 2%Z => Lst (trace false init (as_list (nth_s 2 c)))
   | _ => Lst []
